@@ -134,6 +134,7 @@ def run(prog, chk):
     _walks(prog, chk, R)
     _selection_sites(prog, chk, R)
     _cost_tables(prog, chk, R)
+    _resolution_table(prog, chk, R)
     _static_stamps(prog, chk, R, ex, ev)
     _statics(prog, chk, R)
     _phase(prog, chk, R, ev)
@@ -1027,3 +1028,126 @@ def _phase(prog, chk, R, ev):
         chk.ob('R08.7', f, c.ln or f.ln, ok,
                'the function table is filled (complete loop over program.functions) before %s, which can evaluate a static initialiser that calls a function' % SX.show(c.e)[:50],
                key='phase:%s' % SX.show(c.e)[:40])
+
+
+# ------------------------------------------------------------------------------------------------------
+def _reference_resolution(levels, name, argtags):
+    """documented resolution: candidates of every level of the hierarchy (nearest first), a signature seen at a nearer level hides
+    the same signature further up, the applicable candidate of least total cost wins, a tie is an error (None)"""
+    seen, best, bestc, amb = set(), None, None, False
+    for li, lv in enumerate(levels):
+        for mi, (mname, params) in enumerate(lv):
+            if mname != name:
+                continue
+            sig = (mname, tuple(params))
+            if sig in seen:
+                continue
+            seen.add(sig)
+            if len(params) != len(argtags):
+                continue
+            costs = [_documented(p_, a_) for p_, a_ in zip(params, argtags)]
+            if any(c is None for c in costs):
+                continue
+            tot = sum(costs)
+            if bestc is None or tot < bestc:
+                best, bestc, amb = (li, mi), tot, False
+            elif tot == bestc:
+                amb = True
+    return None if amb else best
+
+
+def _resolution_table(prog, chk, R):
+    """findMethod evaluated abstractly on model hierarchies (three levels, overload sets split across levels, overrides, ties)
+    and compared with the documented resolution"""
+    fm = R.ev_method('findMethod')
+    # hierarchy of receiver classes: L0 (most derived) → L1 → L2; argument classes use HIER (D → B → A, C unrelated)
+    SCEN = [
+        # (levels: list of [(method name, [param tags])…] from the receiver's class upwards, call name, argument tags)
+        ([[('f', ['Int'])], [('f', ['Long'])], []], 'f', ['Int']),
+        ([[('f', ['Long'])], [('f', ['Int'])], []], 'f', ['Int']),          # the exact match further up must win over a nearer widening
+        ([[('f', ['A'])], [('f', ['D'])], []], 'f', ['D']),
+        ([[('f', ['A'])], [('f', ['B'])], [('f', ['D'])]], 'f', ['D']),
+        ([[('f', ['A'])], [('f', ['B'])], []], 'f', ['D']),
+        ([[('f', ['A']), ('f', ['C'])], [], []], 'f', ['null']),             # tie → ambiguous
+        ([[('f', ['A'])], [('f', ['A'])], []], 'f', ['B']),                   # override hides the base version: no tie
+        ([[('f', ['Int', 'Long']), ('f', ['Long', 'Int'])], [], []], 'f', ['Int', 'Int']),   # tie
+        ([[('f', ['Int', 'Long'])], [('f', ['Int', 'Int'])], []], 'f', ['Int', 'Int']),
+        ([[('g', ['Int'])], [('f', ['Int'])], []], 'f', ['Int']),
+        ([[], [], [('f', ['Float'])]], 'f', ['Float']),
+        ([[('f', ['Float'])], [], []], 'f', ['Int']),                         # not applicable → none
+        ([[('f', ['Int'])], [], []], 'f', ['Int', 'Int']),                    # arity
+        ([[('f', ['B']), ('f', ['A'])], [], []], 'f', ['D']),
+        ([[('f', ['A']), ('f', ['B'])], [], []], 'f', ['D']),                 # order of declaration must not matter
+        ([[('f', ['A', 'B'])], [('f', ['B', 'A'])], []], 'f', ['D', 'D']),    # equal total cost across levels → ambiguous
+        ([[('f', ['String'])], [('f', ['Char'])], []], 'f', ['Char']),
+        ([[('f', ['A'])], [], []], 'f', ['null']),
+    ]
+    bad, n = [], 0
+    for levels, name, args in SCEN:
+        n += 1
+        want = _reference_resolution(levels, name, args)
+        # build runtime class objects
+        cls_objs = []
+        base = None
+        for li in range(len(levels) - 1, -1, -1):
+            methods = {}
+            for mi, (mname, params) in enumerate(levels[li]):
+                methods.setdefault(mname, []).append(Obj(name=mname, params=[_rt_type(p_) for p_ in params], signature='%s(%s)' % (mname, ','.join(params)),
+                                                         isVirtual=False, isStatic=False, tag=(li, mi)))
+            base = Obj(name='L%d' % li, base=base, methods=methods)
+            cls_objs.insert(0, base)
+
+        def rt_findClass(it, e, env):
+            nm = it.expr(SX.real_args(e)[0], env)
+            return _rt_class(nm) if nm in HIER else None
+        argv = [_rt_value(a_) for a_ in args]
+        try:
+            got = Interp(prog, {'findClass': rt_findClass}, max_steps=20000).call_fn_env(fm, [cls_objs[0], name, argv], {'this': Obj()})
+        except Unsupported as ex:
+            chk.note('overload resolution table not evaluated: %s' % ex)
+            return
+        gtag = got.get('tag') if isinstance(got, Obj) else None
+        if gtag != want:
+            bad.append('%s(%s) on %s → %s, documented %s' % (name, ','.join(args), [[m + str(p_) for m, p_ in lv] for lv in levels], gtag, want))
+    # the analyser's resolver on the same scenarios
+    fa = prog.fn('SemanticAnalyser::findMethodInHierarchy')
+    bad_a = []
+    evaluated_a = True
+    for levels, name, args in SCEN:
+        want = _reference_resolution(levels, name, args)
+        infos = {}
+        for li in range(len(levels)):
+            methods = {}
+            for mi, (mname, params) in enumerate(levels[li]):
+                methods.setdefault(mname, []).append(Obj(name=mname, paramTypes=[_an_type(p_) for p_ in params], tag=(li, mi), isStatic=False, isVirtual=False))
+            infos['L%d' % li] = Obj(name='L%d' % li, base=('L%d' % (li + 1)) if li + 1 < len(levels) else '', typeParams=[], methods=methods, fields={})
+
+        def an_findClass(it, e, env, infos=infos):
+            nm = it.expr(SX.real_args(e)[0], env)
+            if nm in infos:
+                return infos[nm]
+            if nm in HIER:
+                return Obj(name=nm, base=HIER[nm], typeParams=[], methods={}, fields={})
+            return None
+        models = {'findClass': an_findClass, 'getTypeParamBound': lambda it, e, env: None,
+                  'substituteMany': lambda it, e, env: it.expr(SX.real_args(e)[0], env),
+                  'methodSignatureLabel': lambda it, e, env: '%s(%s)' % (it.expr(SX.real_args(e)[0], env), ','.join(
+                      (t_.get('className') or t_.get('value', '')) for t_ in it.expr(SX.real_args(e)[1], env)))}
+        recv = Obj(value=VT + 'Unknown', className='L0', typeArgs=[], isTypeParam=False)
+        try:
+            got = Interp(prog, models, max_steps=40000).call_fn_env(fa, [recv, name, [_an_type(a_) for a_ in args]], {'this': Obj()})
+        except Unsupported as ex:
+            chk.note('analyser resolution table not evaluated: %s' % ex)
+            evaluated_a = False
+            break
+        gtag = got.get('tag') if isinstance(got, Obj) else None
+        if gtag != want:
+            bad_a.append('%s(%s) on %s → %s, documented %s' % (name, ','.join(args), [[m + str(p_) for m, p_ in lv] for lv in levels], gtag, want))
+    if evaluated_a:
+        chk.ob('R08.4', fa, fa.ln, not bad_a,
+               'compile-time overload resolution equals the documented one on the same %d model hierarchies (so both resolvers choose the same overload); mismatches: %s' % (n, bad_a[:3]),
+               key='resolution:analyser')
+    chk.extra['resolution_scenarios'] = n
+    chk.ob('R08.4', fm, fm.ln, not bad,
+           'run-time overload resolution equals the documented one on %d model hierarchies (levels, overrides, widening, class distance, null, ties); mismatches: %s' % (n, bad[:3]),
+           key='resolution:runtime')
